@@ -210,6 +210,9 @@ LTYPES = {
     "csharp": _mk([("sbyte", "int", 8, True), ("byte", "int", 8, False), ("short", "int", 16, True),
                    ("ushort", "int", 16, False), ("int", "int", 32, True), ("uint", "int", 32, False),
                    ("long", "int", 64, True), ("ulong", "int", 64, False), ("nint", "int", 32, True),
+                   # C# spec 8.3.6: char is an unsigned 16-bit integral type (a UTF-16 code unit); it converts
+                   # implicitly to ushort/int/uint/long/ulong (10.2.3) and only explicitly FROM other integral types
+                   ("char", "int", 16, False),
                    ("float", "float", 32, False), ("double", "float", 64, False), ("bool", "bool", 1, False)]),
     "go": _mk([("int8", "int", 8, True), (["uint8", "byte"], "int", 8, False), ("int16", "int", 16, True),
                ("uint16", "int", 16, False), (["int32", "rune"], "int", 32, True), ("uint32", "int", 32, False),
@@ -301,7 +304,9 @@ def _implicit_int_ok(lang, s, d):
     if lang in ("c", "cpp"):
         return True
     if lang == "csharp":
-        return (s.width < d.width and (d.signed or not s.signed)) or (s.name, d.name) == ("int", "nint")
+        if d.name == "char":
+            return False
+        return (s.width < d.width and (d.signed or not s.signed)) or (s.name, d.name) in (("int", "nint"), ("char", "ushort"))
     if lang == "d":
         return d.width >= s.width
     return False
@@ -1085,6 +1090,56 @@ class Extract:
         self.closures = {n: i for n, i, st in synq.bindings(fn.body) if i is not None and i.get("k") == "closure"}
         self.pushed = []
         self.prelude = ""
+        self.depth = 0
+        self._crate_fns = None
+
+    def crate_fns(self, name):
+        """functions / methods called `name` defined anywhere in the crate of the function under analysis"""
+        if self._crate_fns is None:
+            root = os.path.dirname(self.fn.file) + "/"
+            self._crate_fns = {}
+            for rel in synq.files():
+                if rel.startswith(root):
+                    for f in synq.all_fns(rel):
+                        if f.body is not None:
+                            self._crate_fns.setdefault(f.name, []).append(f)
+        return self._crate_fns.get(name, [])
+
+    def inline(self, name, args, env, what):
+        """`helper(lit, operand, ..)` / `self.helper(..)`: a function of the same crate whose body is `let`s followed
+        by one string-building expression over its parameters is evaluated with the arguments substituted
+        (behaviour-preserving helper extraction must not change the verdict)."""
+        cands = self.crate_fns(name)
+        if len(cands) != 1:
+            raise Unknown(f"{what}: {len(cands)} definitions of `{name}` in the crate")
+        if self.depth >= 3:
+            raise Unknown(f"{what}: helper nesting too deep")
+        f = cands[0]
+        params = [p for p in f.node["sig"]["params"] if not p.get("self")]
+        if len(params) != len(args) or any(p["pat"].get("k") != "p_ident" for p in params):
+            raise Unknown(f"{what}: arity / parameter patterns of `{name}`")
+        env2 = {}
+        for p, a in zip(params, args):
+            try:
+                env2[p["pat"]["name"]] = self.s(a, env)
+            except Unknown:
+                env2[p["pat"]["name"]] = None  # not a string template: poison (an error only if the body uses it)
+        # the helper must be a pure string builder: only `let`s and a tail expression
+        stmts = f.body.get("stmts", [])
+        if not stmts or any(st.get("k") != "let" for st in stmts[:-1]) or stmts[-1].get("k") != "expr_stmt" or stmts[-1].get("semi"):
+            raise Unknown(f"{what}: body of `{name}` is not `let`s followed by one string expression")
+        saved = (self.operands, self.results, self.operand_str, self.closures)
+        self.operands = self.results = self.operand_str = None  # the helper sees only its parameters
+        self.closures = {}
+        self.depth += 1
+        try:
+            out = self.run(stmts, env2, want_tail=True)
+        finally:
+            self.depth -= 1
+            self.operands, self.results, self.operand_str, self.closures = saved
+        if out is None:
+            raise Unknown(f"{what}: `{name}` has no string value")
+        return out
 
     # -- symbolic strings are python strings in which the operand is the marker __OP__
     def s(self, e, env):
@@ -1123,6 +1178,10 @@ class Extract:
             if tail is None:
                 raise Unknown("block without a string tail")
             return tail
+        if k == "call" and e["func"].get("k") == "path" and e["func"]["path"] not in self.closures:
+            return self.inline(synq.short(e["func"]["path"]), e["args"], env, f"`{synq.render(e)[:50]}`")
+        if k == "mcall" and synq.render(e["recv"]).split(".")[0] == "self":
+            return self.inline(e["method"], e["args"], env, f"`{synq.render(e)[:50]}`")
         raise Unknown(f"string expression `{synq.render(e)[:70]}` not understood")
 
     def fmt(self, f, env):
@@ -1551,6 +1610,7 @@ def check_scalar(be, ins, tmpl, helpers=None):
         # diagnostics only: constant-fold the template on a few concrete inputs
         cex = ""
         samples = _lower_samples(kind, n, signed) if direction == "lower" else \
+            [0, 0x41, 0xD7FF, 0xFFFF, 0x1F600, 0x10FFFF] if kind == "char" else \
             (_LIFT_SAMPLES32 if src.width == 32 else _LIFT_SAMPLES32 + [1 << 32, (1 << 63), (1 << 64) - 1])
         for x in samples:
             try:
